@@ -203,7 +203,7 @@ Proof. exists [Compile M0 false false false], M1, "m". vm_compute. reflexivity. 
 Print Assumptions C13_refuted_py_then_fortran_err.
 
 (* D28: from_yaml(p).update_var(...) mutates the cached template; circuit.clear()/clear=True do not cure it
-   (history-level witness for the code as it is: switch fixed_yaml_copy = false) *)
+   (NOTE, before D91: history-level witness for the switch value fixed_yaml_copy = false) *)
 Theorem C13_refuted_template_cache_mutation : fixed_yaml_copy = false ->
   exists h, CachesClean h = true /\ obs_of_yaml (run_hist h G0) <> obs_of_yaml G0.
 Proof.
@@ -214,7 +214,7 @@ Qed.
 Print Assumptions C13_refuted_template_cache_mutation.
 
 (* the same on from_yaml itself, for either value of the switch: before the repair a cache that holds a mutated circuit hands it
-   out; with proposed_fix_C13_D28.diff NO state of the cache makes from_yaml hand out a mutated circuit *)
+   out; since D91 (fixes/fix_D91.diff) NO state of the cache makes from_yaml hand out a mutated circuit *)
 Theorem C13_from_yaml_before_fix : exists g, tc_kA (snd (from_yaml_k false g)) <> None.
 Proof. exists (set_template (Some {| tc_obj := 0%nat; tc_kA := Some (mkq 5 1) |}) G0). cbn. discriminate. Qed.
 Print Assumptions C13_from_yaml_before_fix.
@@ -232,7 +232,7 @@ Theorem C13_refuted_op_cache_by_name_before_fix :
 Proof. vm_compute. repeat split; reflexivity. Qed.
 Print Assumptions C13_refuted_op_cache_by_name_before_fix.
 
-(* WITH the structural key (proposed_fix_C13_op_cache_key.diff): for ALL models and ALL cache contents every IR node carries its own
+(* SINCE D90 (fixes/fix_D90.diff), with the structural key: for ALL models and ALL cache contents every IR node carries its own
    operator's equation and its own default (or node-level) value *)
 Theorem C13_op_cache_key_fixed : forall opc m, map (fun c => (n_eq c, n_units c)) (phase1_k true opc m) = map own_def (m_nodes m).
 Proof. exact op_cache_key_fixed. Qed.
